@@ -129,12 +129,23 @@ for it in range(N):
                 thr = rng.choice([0.5, 1.0, vars_[0].value])           # sometimes exactly at the branch threshold
                 e1, d1 = gen(2, leaves)
                 e2, d2 = gen(2, leaves)
-                ce.add_condition(aml.inequality(vars_[0], ub=thr), e1 + vars_[0])
-                ce.add_final_expr(e2 + vars_[0] * 2)
+                if len(vars_) > 1 and rng.random() < 0.4:
+                    # the condition tests a variable that occurs in no branch expression
+                    cv = vars_[-1]
+                    wo = [(l, n) for (l, n) in leaves if l is not cv]
+                    e1, d1 = gen(2, wo)
+                    e2, d2 = gen(2, wo)
+                    thr = rng.choice([0.5, 1.0, cv.value])
+                    ce.add_condition(aml.inequality(cv, ub=thr), e1 + vars_[0])
+                    ce.add_final_expr(e2 + vars_[0] * 2)
+                    history.append("add conditional c%d (%s <= %r, not in the branches): %s | %s" % (k, cv.name, thr, d1, d2))
+                else:
+                    ce.add_condition(aml.inequality(vars_[0], ub=thr), e1 + vars_[0])
+                    ce.add_final_expr(e2 + vars_[0] * 2)
+                    history.append("add conditional c%d (x0 <= %r): %s | %s" % (k, thr, d1, d2))
                 c = aml.Constraint(ce)
                 setattr(m, "c%d" % k, c)
                 cons.append(c)
-                history.append("add conditional c%d (x0 <= %r): %s | %s" % (k, thr, d1, d2))
                 k += 1
             elif action == "remove":
                 c = rng.choice(cons)
